@@ -1,2 +1,2 @@
 """Sidecar contracts; importing this package registers all of them."""
-from . import basic_block, scfg_queries, scfg_edit, namegen, bytecode, transforms  # noqa
+from . import basic_block, scfg_queries, scfg_edit, namegen, bytecode, transforms, hierarchy  # noqa
